@@ -46,7 +46,12 @@ PROPS = {
 }
 PROBES = {'C16': ['several_crossing_in_one_update', 'crossing_and_returning', 'within_1e-6_of_plane', 'entered_outlet_beyond_far_end',
                   'inactive_stage', 'empty_fluid', 'ghost_inlet', 'props_to_copy_subset', 'fluid_backflow_into_inlet_zone',
-                  'outlet_particle_deleted', 'inlet_recycled', 'ghost_outlet', 'inlet_particle_beyond_upstream_end']}
+                  'outlet_particle_deleted', 'inlet_recycled', 'ghost_outlet', 'inlet_particle_beyond_upstream_end',
+                  'zone_name_contains_other_zone_name']}
+
+
+# array names: the default ones, and sets in which one zone's name is a suffix / prefix of another's (zone bookkeeping is keyed by name)
+NAME_SETS = [['inlet', 'fluid', 'outlet'], ['inlet', 'fluid', 'out_inlet'], ['outlet2', 'fluid', 'outlet']]
 
 
 def prepare(prop, tier):
@@ -97,9 +102,11 @@ def gen(t, prop, tier):
     ptc = None
     if t.bool(0.4):
         ptc = ['x', 'y', 'z', 'u', 'h', 'm', 'token'] + [p for p in ['rho', 'p', 'v', 'w', 'uhat'] if t.bool(0.5)]
-    return dict(family=fam, dim=dim, dir=d, dx=dx, n_in=n_in, n_fluid=n_fluid, n_out=n_out, rows=rows,
-                ghost=int(t.bool(0.5)), out_ghost=int(t.bool(0.5)), fluid_empty=int(t.bool(0.08)), props_to_copy=ptc, steps=steps, stamp=1,
-                origin=[t.choice([0.0, 1.0, -3.0]), t.choice([0.0, 2.0]), 0.0])
+    sc = dict(family=fam, dim=dim, dir=d, dx=dx, n_in=n_in, n_fluid=n_fluid, n_out=n_out, rows=rows,
+              ghost=int(t.bool(0.5)), out_ghost=int(t.bool(0.5)), fluid_empty=int(t.bool(0.08)), props_to_copy=ptc, steps=steps, stamp=1,
+              origin=[t.choice([0.0, 1.0, -3.0]), t.choice([0.0, 2.0]), 0.0])
+    sc['names'] = list(NAME_SETS[t.wchoice([(0, 7), (1, 2), (2, 1)])])
+    return sc
 
 
 def sig_of(sc):
@@ -189,9 +196,14 @@ def execute(sc, prop):
                                 m=np.ones(n) * dx ** dim, rho=np.ones(n), u=np.ones(n) * d[0], v=np.ones(n) * d[1], w=np.ones(n) * d[2],
                                 p=toks * 0.5)
         return pa, toks
-    inlet, tin = make('inlet', [-(k + 0.5) * dx for k in range(n_in)])
-    fluid, tfl = make('fluid', [] if sc.get('fluid_empty') else [(k + 0.5) * dx for k in range(n_fluid)])
-    outlet, tou = make('outlet', [(n_fluid + k + 0.5) * dx for k in range(n_out)])
+    names = sc.get('names') or NAME_SETS[0]
+    if names not in NAME_SETS:
+        raise InvalidScenario('names')
+    if names != NAME_SETS[0]:
+        probe('zone_name_contains_other_zone_name')
+    inlet, tin = make(names[0], [-(k + 0.5) * dx for k in range(n_in)])
+    fluid, tfl = make(names[1], [] if sc.get('fluid_empty') else [(k + 0.5) * dx for k in range(n_fluid)])
+    outlet, tou = make(names[2], [(n_fluid + k + 0.5) * dx for k in range(n_out)])
     ptc = sc.get('props_to_copy')
     if ptc is not None:
         if not (isinstance(ptc, list) and all(isinstance(p, str) for p in ptc) and {'x', 'y', 'z', 'token'} <= set(ptc)):
@@ -201,12 +213,12 @@ def execute(sc, prop):
     InletCls = importlib.import_module('pysph.sph.bc.%s.inlet' % fam).Inlet
     OutletCls = importlib.import_module('pysph.sph.bc.%s.outlet' % fam).Outlet
     out_ghost = bool(sc.get('out_ghost')) and fam == 'mirror'
-    iinfo = InletInfo(pa_name='inlet', normal=[float(v) for v in n_inlet_normal], refpoint=[float(v) for v in ref_in], has_ghost=has_ghost,
+    iinfo = InletInfo(pa_name=names[0], normal=[float(v) for v in n_inlet_normal], refpoint=[float(v) for v in ref_in], has_ghost=has_ghost,
                       update_cls=InletCls)
-    oinfo = OutletInfo(pa_name='outlet', normal=[float(v) for v in d], refpoint=[float(v) for v in ref_out], has_ghost=out_ghost,
+    oinfo = OutletInfo(pa_name=names[2], normal=[float(v) for v in d], refpoint=[float(v) for v in ref_out], has_ghost=out_ghost,
                        props_to_copy=ptc, update_cls=OutletCls)
-    iom = mod.SimpleInletOutlet(fluid_arrays=['fluid'], inletinfo=[iinfo], outletinfo=[oinfo])
-    arrays = {'inlet': inlet, 'fluid': fluid, 'outlet': outlet}
+    iom = mod.SimpleInletOutlet(fluid_arrays=[names[1]], inletinfo=[iinfo], outletinfo=[oinfo])
+    arrays = {names[0]: inlet, names[1]: fluid, names[2]: outlet}
     ghost = None
     if has_ghost:
         ghost = iom.create_ghost(inlet, inlet=True)
